@@ -25,7 +25,8 @@
    the translation validation. *)
 From Coq Require Import Reals ZArith Lia Lra.
 From Coquelicot Require Import Coquelicot.
-From PA Require Import model.Abel proofs.AbelLemmas proofs.C09Daun proofs.C09Daun2 proofs.C09Daun3 proofs.C09Dasch proofs.C09Rbasex gen.FormulasBasis.
+From PA Require Import model.Abel proofs.AbelLemmas proofs.C09Daun proofs.C09Daun2 proofs.C09Daun3 proofs.C09Dasch proofs.C09Rbasex
+  proofs.ExactOnSpan proofs.C09Daun3Comb proofs.C09DaschAxis proofs.C09Prefix proofs.C09Basex gen.FormulasBasis.
 Open Scope R_scope.
 
 (* daun, degree 0: A[j][i] is the Abel transform at pixel i of the indicator of
@@ -126,6 +127,88 @@ Theorem C09_rbasex_F_step : forall (m : nat) (F : R -> R -> R) (r : R), 0 < r ->
                       ((r / sqrt (r * r + z * z)) ^ (2 + S m)).
 Proof. exact rbasex_F_step. Qed.
 Print Assumptions C09_rbasex_F_step.
+
+(* ---- stretch 2 -------------------------------------------------------------- *)
+
+(* daun degree 3, Hermite form: for ANY slopes m the function
+   herm_p_j + sum_k m_k herm_q_k has the projection daun_p3 j i + sum_k m_k daun_q3 k i
+   at every pixel; _bs_daun assembles its degree-3 rows in this form with the slopes
+   of the banded solve.  (That the solve returns the clamped-spline slopes is
+   linear algebra, not modelled; the relation it solves is the C^2 condition:
+   C09_spline_C2_iff_tridiagonal.) *)
+Theorem C09_daun3_hermite_combination : forall (n j : nat) (m : nat -> R) (i : Z), (0 <= i)%Z -> (j < n)%nat ->
+  Abel (hermite_comb j m n) (zc n) (IZR i) =
+  daun_p3 (Z.of_nat j) i + sumn n (fun k => m k * daun_q3 (Z.of_nat k) i).
+Proof. exact daun3_hermite_combination. Qed.
+Print Assumptions C09_daun3_hermite_combination.
+
+Theorem C09_spline_C2_iff_tridiagonal : forall ykm yk ykp mkm mk mkp : R,
+  yk * Derive_n p_up 2 0 + mk * Derive_n q_up 2 0 + ykp * Derive_n p_lo 2 (-1) + mkp * Derive_n q_lo 2 (-1)
+  = yk * Derive_n p_lo 2 0 + mk * Derive_n q_lo 2 0 + ykm * Derive_n p_up 2 1 + mkm * Derive_n q_up 2 1
+  <-> mkm + 4 * mk + mkp = 3 * (ykp - ykm).
+Proof. exact spline_C2_iff_tridiagonal. Qed.
+Print Assumptions C09_spline_C2_iff_tridiagonal.
+
+(* Dasch axis row i = 0.  two_point: genuine inverse Abel integrals for j >= 2, the
+   documented convention for j = 0, 1.  three_point: inverse Abel integral of the
+   interpolant for EVERY j, with the symmetric parabola on the axis segment
+   (dpar 0 / dpar_sym1 / dpar j).  Together with C09_two_point_entry and
+   C09_three_point_entry every entry of both operators is covered. *)
+Theorem C09_two_point_row0_entry : forall cols j : Z, (2 <= j < cols)%Z ->
+  two_point_D cols 0 j = InvAbel (dhat (IZR j)) (IZR j + 1) 0.
+Proof. exact two_point_row0_entry. Qed.
+Print Assumptions C09_two_point_row0_entry.
+
+Theorem C09_two_point_axis_convention : forall cols : Z, (2 <= cols)%Z ->
+  two_point_D cols 0 0 = 2 / PI /\ two_point_D cols 0 1 = ln 2 / PI - 2 / PI.
+Proof. exact two_point_axis_convention. Qed.
+Print Assumptions C09_two_point_axis_convention.
+
+Theorem C09_three_point_row0_entry : forall cols j : Z, (2 <= j < cols)%Z ->
+  three_point_D cols 0 j = InvAbel (dpar (IZR j)) (IZR j + 3 / 2) 0.
+Proof. exact three_point_row0_entry. Qed.
+Print Assumptions C09_three_point_row0_entry.
+
+Theorem C09_three_point_row0_col0 : forall cols : Z, (1 <= cols)%Z ->
+  three_point_D cols 0 0 = InvAbel (dpar 0) (0 + 3 / 2) 0.
+Proof. exact three_point_row0_col0. Qed.
+Print Assumptions C09_three_point_row0_col0.
+
+Theorem C09_three_point_row0_col1 : forall cols : Z, (2 <= cols)%Z ->
+  three_point_D cols 0 1 = InvAbel dpar_sym1 (1 + 3 / 2) 0.
+Proof. exact three_point_row0_col1. Qed.
+Print Assumptions C09_three_point_row0_col1.
+
+(* prefix property: the entry does not depend on the size the matrix was generated
+   for (the caches return M[:n, :n]); daun_p<d> and rbasex_p<n> have no size
+   argument at all.  For onion peeling the operator is inv(W): crop commutes with
+   the inverse of a triangular matrix (proofs/TriangularCrop.v, C07). *)
+Theorem C09_dasch_prefix : forall n m i j : Z, (0 <= i < n)%Z -> (0 <= j < n)%Z -> (n <= m)%Z ->
+  two_point_D n i j = two_point_D m i j /\ three_point_D n i j = three_point_D m i j /\
+  onion_W n i j = onion_W m i j.
+Proof.
+  intros n m i j Hi Hj Hn. repeat split;
+  [apply two_point_prefix | apply three_point_prefix | apply onion_W_prefix]; assumption.
+Qed.
+Print Assumptions C09_dasch_prefix.
+
+Theorem C09_triangular_shape : forall n i j : Z, (0 <= j)%Z -> (i < n)%Z ->
+  ((j < i)%Z -> two_point_D n i j = 0 /\ onion_W n i j = 0 /\ daun_p0 j i = 0 /\ daun_p1 j i = 0) /\
+  ((j + 1 < i)%Z -> three_point_D n i j = 0).
+Proof.
+  intros n i j Hj Hi. split.
+  - intros H. repeat split; [apply two_point_upper | apply onion_W_upper | apply daun_lower | apply daun_lower]; lia.
+  - intros H. apply three_point_band; lia.
+Qed.
+Print Assumptions C09_triangular_shape.
+
+(* basex: the tabulated basis functions rho_k(r_i) (matrix Mc of _bs_basex) are the
+   documented (e/k^2)^(k^2) (r/sigma)^(2k^2) exp(-(r/sigma)^2) *)
+Theorem C09_basex_rho_formula : forall (k : nat) (sigma r : R), (1 <= k)%nat -> 0 < sigma -> 0 < r ->
+  basex_Mck (INR k) sigma r =
+  (exp 1 / INR (k * k)) ^ (k * k) * (r / sigma) ^ (2 * (k * k)) * exp (- ((r / sigma) * (r / sigma))).
+Proof. exact basex_rho_formula. Qed.
+Print Assumptions C09_basex_rho_formula.
 
 (* the hypotheses are satisfiable *)
 Example C09_hyps_ok : (1 <= 3 < 10)%Z /\ (0 <= 5 < 10)%Z /\ 0 <= 3 / 2 /\ 0 <= IZR 4.
